@@ -5,8 +5,12 @@
   The structural ones hold for *every* evaluator oracle (forward / backward), every direction oracle
   (Gauss-Newton step always / periodically / never, any L-BFGS behaviour), every stop schedule, time-limit
   oracle, iteration budget (0 included), both values of `always_overwrite_results`, every exit status, over
-  *any* carrier (IEEE doubles included).  The order-theoretic readings (`u ∈ U`, `e = c − Π_D(c + y/μ)`)
-  are proved over every linearly ordered field.
+  *any* carrier (IEEE doubles included) — conditional on the model's loop fuel (`fuelOut = false`; asserted
+  by the trace replay on every run).  The order-theoretic readings (`u ∈ U`, `e = c − Π_D(c + y/μ)`) are proved
+  over every linearly ordered field, where the fuel hypothesis is discharged by `FuelOK` (`Proofs/OcpFuel`:
+  `ocp_exit_contract_fuelOK`, `ocp_wrote_iff_fuelOK`, `ocp_u_out_in_U`), and input boxes with infinite sides
+  are covered through extended bounds (`ocp_u_out_in_extended_U`).  `ocp_wrote_iff`: results are written
+  exactly on `Converged` / `Interrupted` / `always_overwrite_results` exits from a loop head.
 -/
 import Alpaqa.Proofs.OcpInv
 import Alpaqa.Proofs.OcpLoop
@@ -79,7 +83,7 @@ theorem ocp_y_errz_of_returned_u (O : Oracles α) (dir : Dir D α) (P : Prob α)
   ((ocp_exit_contract O dir P d0 pr stop oot u0 y mu errz0 gV gQ gS e0 hτ hfuel).1 hw).2
 
 /-- Where a solve can end (as `Props/C06_Ocp.ocp_run_cases`). -/
-theorem ocp_run_cases' (O : Oracles α) (dir : Dir D α) (P : Prob α) (d0 : D) (pr : Params α)
+theorem ocp_run_cases_wrote (O : Oracles α) (dir : Dir D α) (P : Prob α) (d0 : D) (pr : Params α)
     (stop : Nat → Bool) (oot : Bool) (u0 y mu errz0 gV gQ : Vec α) (gS e0 : α)
     (hτ : TauSentinelOK α)
     (hfuel : (run O dir P d0 pr stop oot u0 y mu errz0 gV gQ gS e0).fuelOut = false) :
@@ -146,7 +150,7 @@ theorem ocp_wrote_iff (O : Oracles α) (dir : Dir D α) (P : Prob α) (d0 : D) (
     (((run O dir P d0 pr stop oot u0 y mu errz0 gV gQ gS e0).exc ≠ .none ∨
       (run O dir P d0 pr stop oot u0 y mu errz0 gV gQ gS e0).callbacks = []) →
       (run O dir P d0 pr stop oot u0 y mu errz0 gV gQ gS e0).wrote = false) := by
-  rcases ocp_run_cases' O dir P d0 pr stop oot u0 y mu errz0 gV gQ gS e0 hτ hfuel with h | h | h
+  rcases ocp_run_cases_wrote O dir P d0 pr stop oot u0 y mu errz0 gV gQ gS e0 hτ hfuel with h | h | h
   · exact ⟨fun _ hc => absurd h.2 hc, fun _ => h.1⟩
   · exact ⟨fun hc _ => absurd hc h.1, fun _ => h.2⟩
   · obtain ⟨sh, eps, status, _, _, _, _, _, hr⟩ := h
@@ -232,6 +236,17 @@ theorem boxOK_tile (N : Nat) (lb ub : Vec α) (hl : lb.length = ub.length) (h : 
     `U` (repeated over the stages), for every exit status at which results are written. -/
 theorem tauSentinelOK : TauSentinelOK α := by
   constructor <;> simp [bne_iff_ne] <;> norm_num
+
+/-- **The model's loop fuel suffices** (`Proofs/OcpFuel.run_fuelOut_false`): under `FuelOK pr nL nτ` —
+    `0 < L_min ≤ L_max ≤ L_min·2^nL`, `L_max ≤ L_0·2^nL` for a user-supplied `L_0 > 0`,
+    `1 < min_linesearch_coefficient·2^nτ`, `(nL+1)(nτ+3) + 1 ≤ lsFuel` — no loop of the model is cut short by its
+    fuel, for all oracles, stop schedules (no monotonicity needed), budgets: the step-size loops double `L` at
+    most `nL` times, the line search makes at most `(nL+1)(nτ+3)` passes, the main loop at most `max_iter + 2`. -/
+theorem ocp_fuel_suffices {D : Type} (O : Oracles α) (dir : Dir D α) (P : Prob α) (d0 : D)
+    (pr : Params α) (stop : Nat → Bool) (oot : Bool) (u0 y mu errz0 gV gQ : Vec α) (gS e0 : α)
+    (nL nτ : Nat) (hp : FuelOK pr nL nτ) :
+    (run O dir P d0 pr stop oot u0 y mu errz0 gV gQ gS e0).fuelOut = false :=
+  run_fuelOut_false O dir P d0 pr stop oot u0 y mu errz0 gV gQ gS e0 nL nτ hp
 
 /-- **Exit contract with the explicit fuel bound**: over a linearly ordered field the hypotheses
     `TauSentinelOK` and `fuelOut = false` of `ocp_exit_contract` are theorems (`FuelOK`, `Proofs/OcpFuel`). -/
@@ -459,6 +474,14 @@ theorem fuelOK_prB : FuelOK prB 23 9 :=
 theorem fuelOK_prM : FuelOK prM 23 9 :=
   ⟨by norm_num [prM, prA], by norm_num [prM, prA], by norm_num [prM, prA], fun _ => by norm_num [prM, prA],
     by norm_num [prM, prA], by norm_num [prM, prA]⟩
+
+/-- `FuelOK` holds for the library's default parameter values (`L_min = 1e-5`, `L_max = 1e20`,
+    `min_linesearch_coefficient = 1/256`, estimated `L₀`) with the model's default fuel 4096:
+    `nL = 84` (`2⁸⁴ ≥ 10²⁵`), `nτ = 9`, `(84+1)(9+3) + 1 = 1021 ≤ 4096` -/
+def prDefault : Params ℚ := { prA with Lmin := 1/100000, Lmax := 100000000000000000000, L0 := 0, lsFuel := 4096 }
+example : FuelOK prDefault 84 9 :=
+  ⟨by norm_num [prDefault, prA], by norm_num [prDefault, prA], by norm_num [prDefault, prA],
+    fun h => by norm_num [prDefault, prA] at h, by norm_num [prDefault, prA], by norm_num [prDefault, prA]⟩
 
 /-- the run `rB` (one stage constraint `x_t ∈ [-½, ½]`, `y = (2, ½)`, `μ = (2, 2)`): `Converged` after one
     Gauss-Newton iteration, model fuel not exhausted, results written:
